@@ -7,7 +7,7 @@ Extraction "model.ml"
   Base.bytes_cmp Base.cmp_to_Z
   BinInt.Z.add BinInt.Z.mul BinInt.Z.sub BinInt.Z.opp BinInt.Z.div BinInt.Z.modulo BinInt.Z.compare BinInt.Z.of_nat BinInt.Z.to_nat
   BinInt.Z.ltb BinInt.Z.eqb
-  KeyOrder.order KeyOrder.order_exact KeyOrder.layer KeyOrder.crc64 KeyOrder.fmt_float_b KeyOrder.safe_key KeyOrder.order_t
+  KeyOrder.order KeyOrder.order_exact KeyOrder.layer KeyOrder.crc64 KeyOrder.fmt_float_b KeyOrder.safe_key KeyOrder.is_nan_key KeyOrder.order_t
   RowMerge.merge_rows RowMerge.merge_values RowMerge.last_write_wins RowMerge.abs_row RowMerge.crdt_update
   RowMerge.crdt_visible RowMerge.crdt_is_tombstoned RowMerge.mk_set RowMerge.mk_tomb
   Tree.t_get Tree.t_insert Tree.t_delete Tree.merge_into Tree.lww_f
